@@ -233,9 +233,8 @@ def run(ctx):
                     off = None
                     if pos == idx:
                         off = 0
-                    elif pos[0] == "field" and pos[1][0] == "binop" and pos[1][1] in ("AddWithOverflow", "Add") and \
-                            strip(pos[1][2]) == idx and pos[1][3][0] == "const":
-                        off = pos[1][3][3]
+                    elif pos[0] == "binop" and pos[1] == "Add" and strip(pos[2]) == idx and pos[3][0] == "const":
+                        off = pos[3][3]
                     if off is not None:
                         at[off] = chr(ch[3])
         sym = ""
